@@ -1,4 +1,5 @@
 import Ucfg.Lemmas.Forest
+import Ucfg.Lemmas.ForestMerge
 /-!
   C10 — merging copies: the source is untouched and nothing is shared.
 
@@ -13,8 +14,17 @@ import Ucfg.Lemmas.Forest
   * `append_leaves_sources_untouched` / `append_stores_new_nodes`: the same for the list merge policies;
   * `write_is_local_*`: the in-place writes change one node, so a later write to one config is invisible through any
     node that is not that node (with the two theorems above: through the other config).
-  Not proved: that Merge is a composition of these primitives for every policy (the model's header records where each
-  is used; histories through the fingerprint hook check it), and the embedded-config path of normalize.
+  * `merge_leaves_separated_untouched` (whole Merge, every list policy, any depth): Merge on the heap
+    (Model/Forest.lean `mergeH`, the function the correspondence driver runs histories through) is a composition of the
+    primitives above; for any set `S` of nodes that nothing outside of it points into - the source config's tree, or any
+    third config - a merge whose destination is outside `S` leaves every node of `S` identical and keeps `S` separated:
+    afterwards no node outside `S` (none of the destination's, old or new) points into `S`;
+  * `merges_leave_separated_untouched`: the same for every sequence of merges (induction over the history);
+  * `copy_separates_old_heap` / `merge_into_copy_leaves_everything_else`: the hypothesis is met by construction for a
+    config that was itself made by copying (NewFrom of a config, the clone Merge stores): everything that existed
+    before the copy is a separated set, so merging anything into the copy leaves *every* older node untouched.
+  Not proved: the embedded-config path of normalize, and merges in which a null meets a value (`mergeH` answers `none`
+  there - which value wins is the content model's business, Model/Merge.lean).
 -/
 namespace Ucfg.C10
 open Ucfg.Forest
@@ -82,5 +92,99 @@ theorem delAt_is_local (h : Heap) (to : Id) (i j : Nat) (p : Option Id) (f : Str
   · have : j ∉ (a.eraseIdx i).drop i := fun hc => hja (List.mem_of_mem_eraseIdx (List.mem_of_mem_drop hc))
     rw [renumber_other _ _ _ _ this, setBody_other _ _ _ _ hj]
   · rfl
+
+/-! ### the whole Merge -/
+
+/-- Merge, as a whole and under every list policy, leaves every node of a separated set `S` (e.g. the source config's
+tree) identical, and no node outside `S` points into `S` afterwards either: destination and source share nothing. -/
+theorem merge_leaves_separated_untouched (S : Id → Prop) (n cf : Nat) (pol : ArrPol) (h h' : Heap) (to frm : Id)
+    (hS : ∀ i : Nat, S i → i < h.length) (hsep : Sep S h) (hto : ¬ S to)
+    (he : mergeH n cf pol h to frm = some h') :
+    (∀ i, S i → h'[i]? = h[i]?) ∧ Sep S h' ∧ h.length ≤ h'.length := by
+  obtain ⟨a, b, _⟩ := (mclaims S h.length hS n).mh cf pol h h' to frm (Nat.le_refl _) hsep hto he
+  exact ⟨b.1, a, b.2⟩
+
+/-- a history of merges: (policy, destination, source) one after the other -/
+def mergeAll (n cf : Nat) : Heap → List (ArrPol × Id × Id) → Option Heap
+  | h, [] => some h
+  | h, (pol, to, frm) :: r =>
+    match mergeH n cf pol h to frm with
+    | some h1 => mergeAll n cf h1 r
+    | none => none
+
+/-- every history of merges into destinations outside `S` leaves `S` untouched -/
+theorem merges_leave_separated_untouched (S : Id → Prop) (n cf : Nat) (ops : List (ArrPol × Id × Id)) :
+    ∀ (h h' : Heap), (∀ i : Nat, S i → i < h.length) → Sep S h → (∀ op ∈ ops, ¬ S op.2.1) →
+      mergeAll n cf h ops = some h' → (∀ i, S i → h'[i]? = h[i]?) ∧ Sep S h' := by
+  induction ops with
+  | nil =>
+    intro h h' _ hsep _ he
+    simp only [mergeAll, Option.some.injEq] at he
+    subst he
+    exact ⟨fun _ _ => rfl, hsep⟩
+  | cons op r ih =>
+    intro h h' hS hsep hto he
+    obtain ⟨pol, to, frm⟩ := op
+    simp only [mergeAll] at he
+    cases hm : mergeH n cf pol h to frm with
+    | none => rw [hm] at he; cases he
+    | some h1 =>
+      rw [hm] at he
+      simp only at he
+      obtain ⟨k1, s1, l1⟩ := merge_leaves_separated_untouched S n cf pol h h1 to frm hS hsep (hto _ (List.mem_cons_self ..)) hm
+      obtain ⟨k2, s2⟩ := ih h1 h' (fun i hi => Nat.lt_of_lt_of_le (hS i hi) l1) s1
+        (fun op hop => hto op (List.mem_cons_of_mem _ hop)) he
+      exact ⟨fun i hi => by rw [k2 i hi, k1 i hi], s2⟩
+
+/-- after a copy, everything that existed before is a separated set: no node of the copy points at an older node -/
+theorem copy_separates_old_heap (n : Nat) (h h' : Heap) (id id' : Id) (p : Option Id) (f : String)
+    (he : cpy n h id p f = some (h', id')) :
+    Sep (fun i : Nat => i < h.length) h' ∧ ¬ (id' < h.length) ∧ h.length ≤ h'.length := by
+  obtain ⟨t, rfl, hid, hfr, _⟩ := cpy_good n h.length h id p f h' id' (Nat.le_refl _) he
+  refine ⟨?_, by rw [hid]; exact Nat.lt_irrefl _, by simp⟩
+  intro x nd hx hnx c hc
+  have hge : h.length ≤ x := Nat.le_of_not_lt hnx
+  rw [List.getElem?_append_right hge] at hx
+  exact Nat.not_lt.mpr (hfr nd (List.mem_of_getElem? hx) c hc)
+
+/-- ... so a config made by copying can be merged into, from any source and under any policy, without any node that
+existed before the copy changing: not the config it was copied from, not the source of the merge, no third config -/
+theorem merge_into_copy_leaves_everything_else (n m cf : Nat) (pol : ArrPol) (h h1 h2 : Heap) (id cp frm : Id)
+    (p : Option Id) (f : String) (hc : cpy n h id p f = some (h1, cp)) (hm : mergeH m cf pol h1 cp frm = some h2) :
+    ∀ i, i < h.length → h2[i]? = h[i]? := by
+  obtain ⟨hsep, hcp, hl⟩ := copy_separates_old_heap n h h1 id cp p f hc
+  obtain ⟨keep, _, _⟩ := merge_leaves_separated_untouched (fun i : Nat => i < h.length) m cf pol h1 h2 cp frm
+    (fun i hi => Nat.lt_of_lt_of_le hi hl) hsep hcp hm
+  intro i hi
+  rw [keep i hi]
+  obtain ⟨t, rfl, _⟩ := cpy_good n 0 h id p f h1 cp (Nat.zero_le _) hc
+  exact List.getElem?_append_left hi
+
+/-- worked example: `{a: {x: 1}}` (nodes 0-2) merged from `{a: {y: 2}, l: [3]}` (nodes 3-7); `S` is the source's tree -/
+def exHeap : Heap :=
+  [⟨none, "", .sub [("a", 1)] []⟩, ⟨some 0, "a", .sub [("x", 2)] []⟩, ⟨some 1, "x", .prim "int" "1"⟩,
+   ⟨none, "", .sub [("a", 4), ("l", 6)] []⟩, ⟨some 3, "a", .sub [("y", 5)] []⟩, ⟨some 4, "y", .prim "int" "2"⟩,
+   ⟨some 3, "l", .sub [] [7]⟩, ⟨some 6, "0", .prim "int" "3"⟩]
+
+/-- the merge runs and allocates three nodes (y, l, l.0 - nothing for `a`, which is merged in place) -/
+example : (mergeH 20 20 .merge exHeap 0 3).map (·.length) = some 11 := by rfl
+
+/-- the source's tree -/
+def exS : Nat → Prop := fun i => 3 ≤ i ∧ i < 8
+
+/-- the hypotheses are met: the source's tree is separated from the destination's -/
+example : (∀ i : Nat, exS i → i < exHeap.length) ∧ Sep exS exHeap ∧ ¬ exS 0 := by
+  refine ⟨fun i hi => hi.2, ?_, fun h => by unfold exS at h; omega⟩
+  intro x nd hx hnx c hc
+  unfold exS at hnx ⊢
+  match x, hx with
+  | 0, hx => simp [exHeap] at hx; subst hx; simp [Body.children] at hc; subst hc; omega
+  | 1, hx => simp [exHeap] at hx; subst hx; simp [Body.children] at hc; subst hc; omega
+  | 2, hx => simp [exHeap] at hx; subst hx; simp [Body.children] at hc
+  | n+3, hx =>
+    by_cases hn : n + 3 < 8
+    · exact absurd ⟨by omega, hn⟩ hnx
+    · have : exHeap.length ≤ n + 3 := by simp only [exHeap, List.length_cons, List.length_nil]; omega
+      rw [List.getElem?_eq_none this] at hx; cases hx
 
 end Ucfg.C10
